@@ -125,14 +125,14 @@ func eventPipeline(ver string, js []byte, others [][]byte) {
 		_, _ = gmsl.ResolveConflictsNew(gmsl.RoomVersion(ver), [][]gmsl.PDU{sevs[:half], sevs}, evs, StdQuerier, func(string) bool { return false })
 		_, _ = gmsl.ResolveConflicts(gmsl.RoomVersion(ver), sevs, evs, StdQuerier, func(string) bool { return false })
 	}
-	// Sign() (in place), when SignJSON can decode the `signatures` member of the redacted event: that is the
-	// precondition of V.C18.no_panic_sign.  Without it Sign() panics on accepted events (defect D1 of
-	// lean/VModel/PanicSites.md, reported; calling it unconditionally would fail every run).
-	if red, err := v.RedactEventJSON(e.JSON()); err == nil {
-		if _, err := gmsl.SignJSON("me", "ed25519:1", fuzzKey, red); err == nil {
-			_ = e.Sign("me", "ed25519:1", fuzzKey)
-		}
+	// SetUnsigned() returns a copy: every accessor must work on it as well
+	if u, err := e.SetUnsigned(map[string]interface{}{"a": 1}); err == nil {
+		touchAccessors(u)
 	}
+	// Sign() on WHATEVER was accepted (performinvite.go signs the event a remote server returned, HandleInvite /
+	// HandleSendJoin counter-sign received events), then every accessor on the event it returns
+	signed := e.Sign("me", "ed25519:1", fuzzKey)
+	touchAccessors(signed)
 	// redaction last (in place)
 	e.Redact()
 	touchAccessors(e)
@@ -155,8 +155,8 @@ func execFuzz(op string, args []string) string {
 	case "event":
 		eventPipeline(ver, in, others)
 	case "sign":
-		// Replay-only op (never generated): Sign() on whatever NewEventFromUntrustedJSON accepts, WITHOUT the
-		// precondition of V.C18.no_panic_sign — defect D1 of lean/VModel/PanicSites.md.
+		// Sign() alone on whatever NewEventFromUntrustedJSON accepts (corpus witnesses of defect D1 of
+		// lean/VModel/PanicSites.md: a `signatures` member that does not decode)
 		if v, err := gmsl.GetRoomVersion(gmsl.RoomVersion(ver)); err == nil {
 			if e, err := v.NewEventFromUntrustedJSON(in); err == nil {
 				_ = e.Sign("me", "ed25519:1", fuzzKey)
@@ -394,6 +394,36 @@ func genFuzz(o *Out, tier string, r *Rng) {
 		}
 		o.Do("event", args...)
 		o.Do("trusted", ver, hx(tj))
+		// directed: a `signatures` member of every JSON kind on an otherwise acceptable event (Sign() must cope)
+		if r.Chance(30) {
+			ms := evMap(target)
+			ms["signatures"] = Pick(r, []interface{}{5, "x", true, []interface{}{}, map[string]interface{}{"a": 1}, map[string]interface{}{"a": "x"},
+				map[string]interface{}{"a": map[string]interface{}{"ed25519:1": 5}}, map[string]interface{}{"a": map[string]interface{}{"ed25519:1": "!!"}},
+				map[string]interface{}{"a": map[string]interface{}{"ed25519:1": map[string]interface{}{}}}, map[string]interface{}{"a": []interface{}{}},
+				nil, map[string]interface{}{"a": nil}, map[string]interface{}{"a": map[string]interface{}{"ed25519:1": nil}}, map[string]interface{}{}})
+			if r.Chance(70) {
+				withHash(ms)
+			}
+			sj, _ := json.Marshal(ms)
+			o.Do("event", ver, hx(sj))
+			o.Count("event.signatures-shape")
+		}
+		// directed: TRUSTED JSON of an event that carries an event_id member (hashed-ID formats compute the ID; a stored
+		// copy of the event may well carry one), in particular the create event of a room whose ID derives from it
+		if r.Chance(30) {
+			src := target
+			if r.Chance(60) {
+				src = h.All[0]
+			}
+			ms := evMap(src)
+			ms["event_id"] = Pick(r, []string{"y", "", "$", "$x", "$" + strings.Repeat("A", 43), "$x:y", "!", "é"})
+			if r.Chance(30) {
+				delete(ms, "room_id")
+			}
+			ej, _ := json.Marshal(ms)
+			o.Do("trusted", ver, hx(ej))
+			o.Count("trusted.with-event_id")
+		}
 		// raw byte mutations of the same text
 		o.Do("event", ver, hx(r.Malform(tj)))
 		o.Do("trusted", ver, hx(r.Malform(tj)))
